@@ -43,18 +43,22 @@ CHECKS.update({
         design="§4.2, §8 C05, §9 C05-C07",
         note="Trusted: Verus/Z3, vstd, walker contract (proved, C01), assumed std string contracts, R5 desugaring of `for`+`continue` (multiple_require). Bounded part is bounded.",
         technique="contract-based deductive verification (Verus) of the real detector functions against hits/pat/loc specs; bounded executable-contract check for the functions outside Verus' reach"),
-    "C07": dict(level="other",
-        text="Mixed: unsafe_erc20_operation, floating_pragma and divide_before_multiply (both left-spine loops, with termination) are PROVED with Verus to report exactly their §8 pattern; unprotected_selfdestruct is decided by the bounded native check only (58 guard/visibility/modifier forms x containers x nestings), which also gives counterexamples for the proved ones.",
+    "C07": dict(level="proof",
+        text="All four vulnerability detectors are PROVED with Verus against DESIGN §8: unsafe_erc20_operation, floating_pragma, divide_before_multiply (both left-spine loops, with termination) and unprotected_selfdestruct together with its five helpers (_is_public_or_external, _is_selfdestruct, _contains_protection_modifiers, _contains_msg_sender_conditions, _is_msg_sender): the result is the union over contracts and member functions of the selfdestruct/suicide calls of every exposed (body, not constructor, public/external) function that has no `only` modifier and passes no msg.sender check to a non-conversion call. The contract_part().unwrap() site is discharged by the generated, proved structural lemma. The bounded native check (58 guard forms x containers x nestings) is the counterexample engine and is not counted.",
         design="§8 C07, §9 C05-C07",
-        note="Trusted as for C05; str::contains('^') is an uninterpreted predicate of the pragma text (assumed std contract).",
-        technique="contract-based deductive verification (Verus) of three of the four real detector functions; bounded executable-contract check for unprotected_selfdestruct"),
+        note="Trusted: Verus/Z3, vstd, walker contract (proved, C01), assumed std contracts (string equality on character sequences; str::contains('^') / contains(\"only\") uninterpreted predicates; clone returns an equal value; Box::as_ref; FunctionTy equality structural; identity into()), R5 desugaring of for+continue.",
+        technique="contract-based deductive verification (Verus) of the four real detector functions and their helpers; bounded native corpus only for counterexamples"),
     "C06": dict(level="proof",
         text="All five declaration-level detectors are PROVED with Verus against DESIGN §8: payable_function (incl. the contract_part().unwrap() site, discharged by a GENERATED and PROVED structural lemma: no SourceUnit/SourceUnitPart node lies strictly below a top-level item), private_constant, private_vars_leading_underscore, private_func_leading_underscore, constructor_order (per-contract prefix contract: a constructor is reported iff an earlier member of the SAME contract is a function other than constructor/modifier). The results are unions over the contract nodes of the complete enumeration (C01), so members of other contracts cannot influence a verdict. The bounded native declaration matrix is the counterexample engine and is not counted.",
         design="§8 C06, §9 C05-C07",
         note="Trusted: Verus/Z3, vstd, walker contract (proved, C01), assumed std contracts (str::starts_with as an uninterpreted predicate of the name, clone returns an equal value, FunctionTy equality structural, Expression::loc() == generated spec twin of the pt.rs impl), R5 desugaring of for+continue, parser invariant: a type expression is not an empty string/hex literal.",
         technique="contract-based deductive verification (Verus) of the five real detector functions; bounded native matrix only for counterexamples"),
     "C08": bounded("Executable never/always contracts of constant_variables, immutable_variables, memory_to_calldata, sstore: 40 write positions (incl. catch bodies, modifier and base-constructor arguments, exponents) x 15 write forms x targets, multi-write files, parameter-write forms x function kinds.", "by-value iteration over HashMap and labelled continue in get_32_byte_storage_variables without a trusted iterator model (second wave, DESIGN §9 C08)", "§8 C08, §9 C08"),
-    "C09": bounded("The real version extractor and the four version-gated detectors on every version triple 0.0.0..1.2.40 (thorough: x 6 operator spellings x 4 placements of unrelated pragmas x 3 bodies, exhaustive over that stated domain; quick: all triples with the plain spelling + boundary versions x operators x placements), never-both, monotonicity, 31/32/33-byte strings.", "the regex crate and iterator adapters in the version extractor (gates: Verus unit det_gate is work in progress)", "§8 C09, §9 C09"),
+    "C09": dict(level="other",
+        text="Mixed: the version GATES are PROVED with Verus (safe_math_optimization and its two wrappers report all SafeMath sites iff v < (0,8,0) resp. v >= (0,8,0) as lexicographic triples and the file attaches SafeMath, never both [lemma]; string_errors reports the require-string literals iff v >= (0,8,4), short_revert_string those of byte length >= 32 iff v < (0,8,4); nothing without a version) relative to spec_version(file); the regex-based extractor get_solidity_version_from_source_unit that computes v is outside Verus (external crate) and is run on every version triple 0.0.0..1.2.40 (thorough: x 6 operator spellings x 4 placements of unrelated pragmas x 3 bodies = exhaustive over the stated domain).",
+        design="§8 C09, §9",
+        note="Trusted: Verus/Z3, vstd, walker contract (C01), assumed std contracts (string equality, String::len as uninterpreted byte length, HashSet::extend is union, SourceUnit::clone); parser invariant: string literal expressions are non-empty. The extractor part is bounded (exhaustive on the stated finite domain in thorough tier).",
+        technique="contract-based deductive verification (Verus) of the gate functions; exhaustive-over-stated-domain native run of the regex extractor"),
     "C04": dict(level="other",
         text="Mixed: panic-freedom (every unwrap/expect/index/arithmetic site, loop termination where a decreases clause is given) is a Verus obligation for every function under contract in units ast, slots and det_expr (walker, tables, accessors, 14 detectors and their helpers), for all inputs; all 30 detectors are additionally run under catch_unwind on the totality corpus (no pragma, unreadable versions, free functions, literals to 2^300 with separators/exponents, zero-argument calls, 300 definitions, depth 60) in a build with and a build without overflow checks (bounded).",
         design="§9 C04",
